@@ -1528,7 +1528,7 @@ pub fn types_pairs_for(prop: &str, tier: Tier) -> Vec<crate::tyeng::Pair> {
 		//   K10 a guard cannot be taken apart into its holds
 		//   D1/D2/D8 references and auto traits (who may touch the data, from where)
 		"C01" => {
-			let mut v = relabel(crate::tyeng::families_owned_lockable(), prop);
+			let mut v = h1_pairs(prop);
 			v.extend(owned_opacity_pairs(prop));
 			v.extend(c14_subset(prop, &["K1-", "K3-", "K4-", "K6-", "K7-", "K9-key-carrying"]));
 			v
@@ -1536,7 +1536,7 @@ pub fn types_pairs_for(prop: &str, tier: Tier) -> Vec<crate::tyeng::Pair> {
 		"C02" => c15_subset(prop, &["D1-", "D1b-", "D2-", "D8-"]),
 		"C03" => c14_subset(prop, &["K3-key-or-hold-carrier", "K6-", "K7-", "K10-"]),
 		"C04" => {
-			let mut v = relabel(crate::tyeng::families_owned_lockable(), prop);
+			let mut v = h1_pairs(prop);
 			v.extend(relabel(crate::tyeng::families_mutation_after_check(), prop));
 			v
 		}
@@ -1559,16 +1559,16 @@ pub fn types_pairs_for(prop: &str, tier: Tier) -> Vec<crate::tyeng::Pair> {
 				})
 				.collect();
 			v.extend(owned_opacity_pairs(prop));
-			v.extend(relabel(crate::tyeng::families_owned_lockable(), prop));
+			v.extend(h1_pairs(prop));
 			v
 		}
 		"C09" => {
 			let mut v = owned_opacity_pairs(prop);
-			v.extend(relabel(crate::tyeng::families_owned_lockable(), prop));
+			v.extend(h1_pairs(prop));
 			v
 		}
 		"C13" => {
-			let mut v = relabel(crate::tyeng::families_owned_lockable(), prop);
+			let mut v = h1_pairs(prop);
 			v.extend(relabel(crate::tyeng::families_mutation_after_check(), prop));
 			v
 		}
@@ -1716,6 +1716,15 @@ fn relabel(v: Vec<crate::tyeng::Pair>, prop: &str) -> Vec<crate::tyeng::Pair> {
 			p
 		})
 		.collect()
+}
+
+/// H1: a lock cannot be listed twice behind the compiler's back: borrowing and
+/// shareable types are not `OwnedLockable`, and the constructors that skip the
+/// run-time check take owned input only
+fn h1_pairs(prop: &str) -> Vec<crate::tyeng::Pair> {
+	let mut v = relabel(crate::tyeng::families_owned_lockable(), prop);
+	v.extend(relabel(crate::tyeng::families_c07(), prop));
+	v
 }
 
 fn c14_subset(prop: &str, prefixes: &[&str]) -> Vec<crate::tyeng::Pair> {
